@@ -96,3 +96,44 @@ Ltac proj_cbn :=
        set_qfs set_afs set_led set_sup set_owed set_surplus set_ge_owed set_farmed
        put_dep put_wd mint disable_pool drop_mm disable_depleted set_pair_after mark_status] in *.
 
+
+(* ---------------- the message-level denom checks: a successful message is the request on the pool's own coins ---------------- *)
+Lemma pool_coin_check_inv s app pid dn en u : pool_coin_check s app pid dn en = Ok u -> dn = pool_denom app pid.
+Proof.
+  unfold pool_coin_check. intros H. destruct (negb (has_app s app)); [discriminate|].
+  destruct (find_pool app pid (pools s)); [|discriminate]. destruct (en && pl_disabled p); [discriminate|].
+  destruct (dn =? pool_denom app pid) eqn:E; [lia|discriminate].
+Qed.
+Lemma deposit_msg_inv s app owner pid cs s' r : deposit_msg s app owner pid cs = Ok (s', r) ->
+  exists x y, deposit_req s app owner pid x y = Ok (s', r).
+Proof.
+  unfold deposit_msg, obind. intros H. destruct (deposit_coins s app pid cs) as [[x y]| |]; try discriminate.
+  exists x, y. exact H.
+Qed.
+Lemma withdraw_msg_inv s app owner pid dn pc sr : withdraw_msg s app owner pid dn pc = Ok sr -> withdraw_req s app owner pid pc = Ok sr.
+Proof.
+  unfold withdraw_msg, obind. intros H. destruct (_ || _); [discriminate|].
+  destruct (pool_coin_check s app pid dn true); try discriminate. exact H.
+Qed.
+Lemma farm_msg_inv s app owner pid dn amt now s' : farm_msg s app owner pid dn amt now = Ok s' -> farm s app owner pid amt now = Ok s'.
+Proof.
+  unfold farm_msg, obind. intros H. destruct (_ || _); [discriminate|].
+  destruct (pool_coin_check s app pid dn false); try discriminate. exact H.
+Qed.
+Lemma unfarm_msg_inv s app owner pid dn amt s' : unfarm_msg s app owner pid dn amt = Ok s' -> unfarm s app owner pid amt = Ok s'.
+Proof.
+  unfold unfarm_msg, obind. intros H. destruct (_ || _); [discriminate|].
+  destruct (pool_coin_check s app pid dn false); try discriminate. exact H.
+Qed.
+Lemma deposit_and_farm_msg_inv s app owner pid cs now ax ay pc s' : deposit_and_farm_msg s app owner pid cs now ax ay pc = Ok s' ->
+  exists x y, deposit_and_farm s app owner pid x y now ax ay pc = Ok s'.
+Proof.
+  unfold deposit_and_farm_msg, obind. intros H. destruct (deposit_coins s app pid cs) as [[x y]| |]; try discriminate.
+  exists x, y. exact H.
+Qed.
+Lemma unfarm_and_withdraw_msg_inv s app owner pid dn pc x y s' :
+  unfarm_and_withdraw_msg s app owner pid dn pc x y = Ok s' -> unfarm_and_withdraw s app owner pid pc x y = Ok s'.
+Proof.
+  unfold unfarm_and_withdraw_msg, obind. intros H. destruct (_ || _); [discriminate|].
+  destruct (pool_coin_check s app pid dn false); try discriminate. exact H.
+Qed.
